@@ -51,7 +51,9 @@ type sseClientTransport struct {
 	closed       atomic.Bool   // Flag indicating if transport is closed.
 	retryConfig  *retry.Config // Retry configuration for requests.
 	endpointChan chan struct{} // Channel to signal when endpoint is received.
-	logger       Logger        // Logger for this client transport.
+	// endpointReceived makes sure endpointChan is closed only once: a server may repeat the endpoint event.
+	endpointReceived atomic.Bool
+	logger           Logger // Logger for this client transport.
 
 	// Fields for HTTP request handler configuration
 	serviceName           string                 // Service name for custom HTTP request handlers.
@@ -291,7 +293,9 @@ func (t *sseClientTransport) handleEndpointEvent(endpointURL string) {
 	}
 
 	t.endpoint = parsedURL
-	close(t.endpointChan) // Signal that the endpoint has been received.
+	if t.endpointReceived.CompareAndSwap(false, true) {
+		close(t.endpointChan) // Signal that the endpoint has been received.
+	}
 }
 
 // handleMessageEvent processes message events from the server.
